@@ -30,6 +30,10 @@ class base(GenericEquality, restriction.base):
 
     _evaluate_collapsible = False
     _evaluate_wipe_empty = True
+    # may a group reduced to a single member be replaced by that member?  True for
+    # all-of, any-of and exactly-one-of; an at-most-one-of group with one member is
+    # always satisfied, so it must not start requiring that member.
+    _evaluate_single_is_member = True
 
     @cached_hash
     def __hash__(self):
@@ -190,7 +194,8 @@ class base(GenericEquality, restriction.base):
         if not self._evaluate_wipe_empty or l:
             if force_collapse or (
                 (issubclass(parent_cls, self.__class__) and self._evaluate_collapsible)
-                or len(l) <= 1
+                or not l
+                or (len(l) == 1 and self._evaluate_single_is_member)
             ):
                 parent_seq.extend(l)
             else:
@@ -651,6 +656,7 @@ class AtMostOneOfRestriction(base):
 
     _evaluate_collapsable = True
     _evaluate_wipe_empty = False
+    _evaluate_single_is_member = False
 
     def match(self, vals):
         armed = False
